@@ -375,7 +375,44 @@ func det01Workload(args []string) int {
 			fixtureBlocks := len(hist.Blocks)
 			g := newMixGen(world, rng)
 			nBlocks := 24 + rng.Intn(10)
+			// every second history: in the middle, the master rule of chainW (bound to a rule that wants proofs
+			// starting with 0x01) is changed to the built-in always-true rule by a proposal whose deciding vote is the
+			// only transaction of a block, and the very next block carries a request from chainW whose proof only the
+			// new rule accepts. Proofs are checked against the state after the previous block: a replica that is
+			// handed both blocks back to back must not answer differently from one that gets them one by one.
+			scriptAt := -1
+			if rng.Intn(2) == 0 {
+				scriptAt = nBlocks/2 + rng.Intn(4)
+			}
 			for b := 0; b < nBlocks; b++ {
+				if b == scriptAt {
+					ca := harness.ChainAdmin("chainW")
+					step := func(what string, txs ...pb.Transaction) *harness.BlockResult {
+						w.Step("R0 scripted: " + what)
+						res, err := world.Exec(txs...)
+						if err != nil {
+							return nil
+						}
+						g.absorb(txs, res)
+						return res
+					}
+					if res := step("UpdateMasterRule(chainW -> always-true rule)", world.BVM(ca, harness.AddrRule, "UpdateMasterRule", pb.String("chainW"), pb.String("0x00000000000000000000000000000000000000a2"), pb.String("reason"))); res != nil && res.Receipts[0].Status == pb.Receipt_SUCCESS {
+						pid := harness.ProposalID(res.Receipts[0])
+						step("two approvals", world.BVM(harness.AdminKey(0), harness.AddrGov, "Vote", pb.String(pid), pb.String("approve"), pb.String("r")),
+							world.BVM(harness.AdminKey(1), harness.AddrGov, "Vote", pb.String(pid), pb.String("approve"), pb.String("r")))
+						if len(hist.Blocks)%8 == 7 {
+							step("idle block (keeps the next two blocks in one window of the pipelined replica)", world.Transfer(harness.User(1), harness.User(2).Addr, "1"))
+						}
+						step("the deciding approval", world.BVM(harness.AdminKey(2), harness.AddrGov, "Vote", pb.String(pid), pb.String("approve"), pb.String("r")))
+						ib := harness.MkIBTP(harness.FullID("chainW", "s1"), harness.FullID(harness.ChainB, "s1"), 1, pb.IBTP_INTERCHAIN, 0)
+						if res := step("request from chainW with a proof only the new rule accepts", world.IBTPTx(harness.User(0), ib, []byte("junk"))); res != nil {
+							w.Count("scripted_rule_change_followed_by_dependent_request", 1)
+							if res.Receipts[0].Status == pb.Receipt_SUCCESS {
+								w.Count("scripted_dependent_request_accepted", 1)
+							}
+						}
+					}
+				}
 				h := world.R.Height() + 1
 				txs := g.genBlock(h)
 				w.Step(fmt.Sprintf("R0 block %d (%d txs)", h, len(txs)))
